@@ -179,7 +179,15 @@ def _attribute(d, lines, gen_file):
                 if not in_gen:
                     d.kind, d.obligation = "safety", f"{site.origin[1]}:{site.origin[2]}"
                     return
-                suffix = "~call"
+                # a `requires` clause that carries a property label of its own states an obligation of the property
+                # (e.g. "the nested records are only walked for an index inside the expansion"); an unlabelled one
+                # (key-model facts, well-formedness plumbing) is proof bookkeeping of the caller: a proof step
+                for s2 in in_gen:
+                    l2 = s2["line_start"]
+                    lab2 = lines[l2 - 1].label if 1 <= l2 <= len(lines) else None
+                    if lab2 and not lab2.startswith("VAC.") and not all(x.endswith(".aux") for x in lab2.split(",")):
+                        d.kind, d.obligation = "label", lab2
+                        return
             k = ln - 1
             while k >= 1 and ln - k < 600:
                 lab = lines[k - 1].label
